@@ -8,7 +8,7 @@ W=/tmp/confirm_$ID
 git -C /repo worktree remove --force $W 2>/dev/null; rm -rf $W
 git -C /repo worktree add -q --detach $W HEAD || exit 2
 cp /repo/crypto/cryptoConfig.h $W/crypto/; cp /repo/matrixssl/matrixsslConfig.h $W/matrixssl/; cp /repo/core/config/coreConfig.h $W/core/config/ 2>/dev/null
-mkdir -p $W/_out; cp $OUT/demo*.c $OUT/build_demo.sh $W/_out/ 2>/dev/null; cp -r $OUT/*.h $OUT/*.sh $OUT/keys $W/_out/ 2>/dev/null
+mkdir -p $W/_out; rsync -a --exclude demo --exclude "*.o" --exclude "*.log" $OUT/ $W/_out/
 res=ok
 ( cd $W && make -s -j16 >/dev/null 2>&1 && sh _out/build_demo.sh >/dev/null 2>&1 ) || { echo "baseline build failed"; res=bad; }
 ( cd $W && timeout 300 ./_out/demo >/tmp/confirm_$ID.base.log 2>&1 ); b=$?
@@ -26,7 +26,7 @@ echo "patched demo exit=$p"
 git -C /repo worktree remove --force $W; rm -rf $W /tmp/confirm_$ID.*.log
 if [ $res = ok ]; then
   D=/verif/seeded/$ID; mkdir -p $D
-  cp $OUT/patch.diff $D/; cp -r $OUT/demo*.c $OUT/*.sh $OUT/*.h $OUT/keys $OUT/NOTES.md $D/ 2>/dev/null
+  rsync -a --exclude demo --exclude "*.o" --exclude "*.log" --exclude "*.txt" $OUT/ $D/
   echo "CONFIRMED $ID -> $D"
 else
   echo "NOT CONFIRMED $ID"; exit 1
